@@ -226,6 +226,87 @@ Theorem deletes_paths : forall ds (h : heap) h' os,
   read_all h' os = map (want h) ds.
 Proof. intros ds h h' os Hok E. now destruct (build_deletes_fixed_spec _ _ _ _ Hok E) as [_ [_ R]]. Qed.
 
+(** ** all three branches of toDeleteNotification *)
+
+Lemma to_delete_element_spec : forall (h : heap) d h' o,
+  dsrc_ok h d ->
+  to_delete_element extra h d = (h', o) ->
+  extends h h' /\ s_id o < length h' /\ sread h' o = sread h (d_pfx d) ++ sread h (d_path d).
+Proof.
+  intros h d h' o [Hp Hl]. unfold to_delete_element, alloc.
+  pose proof (sread_length h (d_pfx d)) as Lp. pose proof (sread_length h (d_path d)) as Ll.
+  rewrite (sread_app_old h _ (d_pfx d) Hp).
+  rewrite append_last by (simpl; lia). simpl.
+  rewrite (sread_app_old h _ (d_path d) Hl).
+  rewrite append_last by (simpl; lia). simpl.
+  intros [= <- <-]. split; [eexists; reflexivity|].
+  split; [simpl; rewrite app_length; simpl; lia|].
+  unfold sread at 1. simpl. rewrite get_app_last. simpl.
+  set (xs := sread h (d_pfx d)). set (ys := sread h (d_path d)).
+  set (a1 := write_at (repeat None (s_len (d_pfx d) + s_len (d_path d))) 0 xs).
+  assert (H1 : firstn (length xs) a1 = xs).
+  { change (length xs) with (0 + length xs). unfold a1. rewrite write_read by lia. reflexivity. }
+  assert (L1 : length xs <= length a1).
+  { pose proof (write_at_length_ge (repeat None (s_len (d_pfx d) + s_len (d_path d))) 0 xs).
+    unfold a1. simpl in *. lia. }
+  rewrite write_read by exact L1. now rewrite H1.
+Qed.
+
+Lemma to_delete_head_spec : forall br (h : heap) d h' o,
+  dsrc_ok h d ->
+  to_delete_head extra br h d = (h', o) ->
+  extends h h' /\ s_id o < length h' /\ sread h' o = want_head br h d.
+Proof.
+  intros br h d h' o Hok. unfold to_delete_head, want_head. destruct (br d).
+  - unfold to_delete_atomic. intros [= <- <-]. destruct Hok as [Hp _].
+    split; [apply extends_refl|]. split; [exact Hp|reflexivity].
+  - now apply to_delete_fixed_spec.
+  - now apply to_delete_element_spec.
+Qed.
+
+Lemma want_head_extends : forall br h h' d, extends h h' -> dsrc_ok h d -> want_head br h' d = want_head br h d.
+Proof.
+  intros br h h' d E Hok. unfold want_head. destruct (br d).
+  - destruct Hok as [H1 _]. now apply extends_sread.
+  - now apply want_extends.
+  - destruct Hok as [H1 H2]. now rewrite (extends_sread h h' _ E H1), (extends_sread h h' _ E H2).
+Qed.
+
+(** gnmiRemove (HEAD) over removed leaves of every kind, mixed: atomic
+    containers, elem / mixed-encoded and element-encoded leaves *)
+Lemma build_deletes_head_spec : forall br ds (h : heap) h' os,
+  Forall (dsrc_ok h) ds ->
+  build_deletes (to_delete_head extra br) h ds = (h', os) ->
+  extends h h' /\ Forall (fun o => s_id o < length h') os /\ read_all h' os = map (want_head br h) ds.
+Proof.
+  intros br. induction ds as [|d ds IH]; intros h h' os Hok; simpl.
+  - intros [= <- <-]. split; [apply extends_refl|]. split; [constructor|reflexivity].
+  - inversion Hok as [|? ? Hd Hds]; subst.
+    destruct (to_delete_head extra br h d) as [h1 o] eqn:E1.
+    destruct (to_delete_head_spec _ _ _ _ _ Hd E1) as [X1 [I1 R1]].
+    destruct (build_deletes (to_delete_head extra br) h1 ds) as [h2 os'] eqn:E2.
+    assert (Hds1 : Forall (dsrc_ok h1) ds).
+    { eapply Forall_impl; [|exact Hds]. intros; now apply (dsrc_ok_extends h). }
+    destruct (IH _ _ _ Hds1 E2) as [X2 [I2 R2]].
+    intros [= <- <-]. split; [eapply extends_trans; eauto|]. split.
+    + constructor; [apply extends_length in X2; lia|exact I2].
+    + simpl. rewrite (extends_sread h1 h2 o X2 I1), R1. f_equal.
+      rewrite R2. apply map_ext_in. intros x Hx. apply want_head_extends; [exact X1|].
+      rewrite Forall_forall in Hds. now apply Hds.
+Qed.
+
+Theorem deletes_head_frame_paths : forall br ds (h : heap) h' os,
+  Forall (dsrc_ok h) ds ->
+  build_deletes (to_delete_head extra br) h ds = (h', os) ->
+  (forall id, id < length h -> get_arr h' id = get_arr h id) /\
+  (forall s, s_id s < length h -> sreach h' s = sreach h s /\ sread h' s = sread h s) /\
+  read_all h' os = map (want_head br h) ds.
+Proof.
+  intros br ds h h' os Hok E. destruct (build_deletes_head_spec _ _ _ _ _ Hok E) as [X [_ R]].
+  split; [now apply extends_frame|]. split; [|exact R].
+  intros s Hs. split; [now apply extends_sreach|now apply extends_sread].
+Qed.
+
 (** joinPrefixAndPath reads the caller's slices and writes only its own *)
 Lemma append_extends_or_last : forall (h : heap) a s xs,
   s_id s = length h -> exists l, fst (append extra (h ++ [a]) s xs) = h ++ l.
